@@ -4,15 +4,15 @@ Require Import UFLV.Props.C23_model.
 
 (* ------------------------------------------------------------------------------------------ *)
 (* syntactic theorems, complex mode *)
-Ltac unf := unfold d1, d2, dx, kc, c2, o1, o2 in *.
+Ltac unf := unfold d1, d2, dx, kc, c2, x2, o1, o2 in *.
 Ltac dcheck :=
   repeat match goal with
-  | H : context [match check ?x with _ => _ end] |- _ =>
-      let E := fresh "E" in destruct (check x) as [[? ?]|] eqn:E; try discriminate H
-  | H : context [match checkc ?x with _ => _ end] |- _ =>
-      let E := fresh "E" in destruct (checkc x) as [[? ?]|] eqn:E; try discriminate H
-  | H : context [match check_list ?x with _ => _ end] |- _ =>
-      let E := fresh "E" in destruct (check_list x) as [[? ?]|] eqn:E; try discriminate H
+  | H : context [match check ?cf ?cb ?x with _ => _ end] |- _ =>
+      let E := fresh "E" in destruct (check cf cb x) as [[? ?]|] eqn:E; try discriminate H
+  | H : context [match checkc ?cf ?cb ?x with _ => _ end] |- _ =>
+      let E := fresh "E" in destruct (checkc cf cb x) as [[? ?]|] eqn:E; try discriminate H
+  | H : context [match check_list ?cf ?cb ?x with _ => _ end] |- _ =>
+      let E := fresh "E" in destruct (check_list cf cb x) as [[? ?]|] eqn:E; try discriminate H
   | H : context [if ?b then _ else _] |- _ =>
       let E := fresh "E" in destruct b eqn:E; try discriminate H
   end.
@@ -29,6 +29,13 @@ Lemma wrapped_site_mk a b : wrapped_site (mk_real a, mk_real b) = true.
 Proof. unfold wrapped_site; simpl. rewrite !wrapped_mk_real. reflexivity. Qed.
 Lemma sites_mk_real a : sites (mk_real a) = sites a.
 Proof. unfold mk_real. destruct a; reflexivity. Qed.
+
+Section FX.
+Variable cfn : mathfn -> bool.
+Variable cbs : bkind -> bool.
+Local Notation check := (C23_model.check cfn cbs).
+Local Notation checkc := (C23_model.checkc cfn cbs).
+Local Notation check_list := (C23_model.check_list cfn cbs).
 
 (* every accepted output has wrapped ordering sites *)
 Definition Pwrap (e : expr) : Prop :=
@@ -67,8 +74,6 @@ Proof.
       dcheck. inv H. rewrite sites_ListTensor.
       eapply wrap_list; [|exact E]. intros x Hx. apply IHe. rewrite size_ListTensor.
       apply In_size_list, Hx.
-    + (* Math *)
-      destruct f; unf; dcheck; inv H; simpl; eapply IHe; try eassumption; simpl; lia.
   - intros c IHe IHc c' t H.
     destruct c; simpl in H; dcheck; inv H; simpl;
       try match goal with E : ordering _ = _ |- _ => rewrite E end; simpl; rewrite ?forallb_app'; rewrite ?wrapped_site_mk, ?sites_mk_real;
@@ -77,3 +82,4 @@ Proof.
       | E : checkc ?x = Some (?y, _) |- _ => rewrite (IHc x ltac:(simpl; lia) _ _ E); clear E
       end; try reflexivity.
 Qed.
+End FX.
